@@ -8,7 +8,7 @@ from ..keval import KEval, Ref, Cond, Const, Top
 from ..poly import Poly, ZERO, ONE
 from ..forms import value_poly, real_guards, short, acc_name_of, is_full_range, norm_cond, CMP, AND, net_accumulation
 from ..trav import check_slim_counter, check_sub_counter, counter_increments
-from .. import wire
+from .. import wire, paths
 from ..model import norm_text, AnchorMissing
 from ..controls import Control
 from ..mutate import in_func
@@ -233,25 +233,41 @@ def decorator(ctx, p):
         raise AnchorMissing("over_sample.<locals>.wrapper")
     w = wrapper[0]
     rets = wire.returns_of(w)
+    # decided on name-free path summaries of the wrapper (sa/paths.py)
+    PS = paths.returns(paths.path_summaries(w) or [])
+
+    def flag_of(q):
+        """(truth, grid argument) of the perform_over_sampling_from(...) test on this path"""
+        for t, truth in q.conds:
+            if t.startswith("perform_over_sampling_from("):
+                c_ = ast.parse(t, mode="eval").body
+                return truth, paths.ptext(paths.kwargs(c_).get("grid")), [x for x in q.conds if x != (t, truth)]
+        return None, None, q.conds
     # (1) over-sampling branch: grid.over_sampler.array_via_func_from(func=func, obj=obj, ...)
-    os_rets = [r for r in rets if isinstance(r.value, ast.Call) and isinstance(r.value.func, ast.Attribute) and r.value.func.attr == "array_via_func_from"]
-    ok = len(os_rets) == 1 and norm_text(os_rets[0].value.func.value) == "grid.over_sampler" and norm_text(wire.kw(os_rets[0].value).get("func")) == "func" and norm_text(wire.kw(os_rets[0].value).get("obj")) == "obj"
-    ctx.ob(rule, w.key + ":over-sampled", ok, where=w, node=os_rets[0] if os_rets else w.node, construct=norm_text(os_rets[0].value)[:140] if os_rets else "",
+    os_rets = [q for q in PS if isinstance(q.value, ast.Call) and isinstance(q.value.func, ast.Attribute) and q.value.func.attr == "array_via_func_from"]
+    ok = bool(os_rets)
+    for q in os_rets:
+        g_now = paths.ptext(q.env.get("grid", ast.Name(id="grid", ctx=ast.Load())))
+        kw_ = {k: paths.ptext(v) for k, v in paths.kwargs(q.value).items()}
+        ok = ok and paths.ptext(q.value.func.value) in (f"{g_now}.over_sampler", f"({g_now}).over_sampler") and kw_.get("func") == "func" and kw_.get("obj") == "obj"
+    ctx.ob(rule, w.key + ":over-sampled", ok, where=w, node=os_rets[0].node if os_rets else w.node, construct=os_rets[0].text[:140] if os_rets else "",
            message="with over-sampling on, the UNDECORATED function `func` must be evaluated by the grid's own over-sampler")
-    # (2) plain branch: `if not perform_over_sampling: return func(obj=obj, grid=grid, ...)`
-    plain = [r for r in rets if isinstance(r.value, ast.Call) and isinstance(r.value.func, ast.Name) and r.value.func.id == "func"]
-    ok = False
+    # (2) plain branch: not perform_over_sampling -> return func(obj=obj, grid=grid, ...)
+    plain = [q for q in PS if isinstance(q.value, ast.Call) and isinstance(q.value.func, ast.Name) and q.value.func.id == "func"]
+    ok = bool(plain)
+    okf = bool(plain) and bool(os_rets)
     det = ""
-    for r in plain:
-        pc = wire.path_conds(w, r)
-        det = f"{norm_text(r.value)[:80]} under {pc}"
-        if ("perform_over_sampling", False) in pc and all(t[0] in ("perform_over_sampling", "isinstance(grid, Grid2DOverSampled)") for t in pc) and norm_text(wire.kw(r.value).get("grid")) == "grid" and norm_text(wire.kw(r.value).get("obj")) == "obj":
-            ok = True
-    ctx.ob(rule, w.key + ":plain", ok, where=w, node=plain[0] if plain else w.node, construct=det, message="when over-sampling is not performed the function must be evaluated plainly on the input grid")
+    for q in plain + os_rets:
+        truth, garg, rest = flag_of(q)
+        g_now = paths.ptext(q.env.get("grid", ast.Name(id="grid", ctx=ast.Load())))
+        det = f"{q.text[:80]} under {q.conds}"[:300]
+        okf = okf and truth is (q in os_rets) and garg == g_now
+        if q in plain:
+            kw_ = {k: paths.ptext(v) for k, v in paths.kwargs(q.value).items()}
+            ok = ok and truth is False and kw_.get("grid") == g_now and kw_.get("obj") == "obj"
+    ctx.ob(rule, w.key + ":plain", ok, where=w, node=plain[0].node if plain else w.node, construct=det, message="when over-sampling is not performed the function must be evaluated plainly on the input grid")
     # perform flag computed by perform_over_sampling_from(grid=grid, ...)
-    asg = [n for n in w.body_nodes() if isinstance(n, ast.Assign) and norm_text(n.targets[0]) == "perform_over_sampling"]
-    ok = len(asg) == 1 and isinstance(asg[0].value, ast.Call) and norm_text(asg[0].value.func) == "perform_over_sampling_from" and norm_text(wire.kw(asg[0].value).get("grid")) == "grid"
-    ctx.ob(rule, w.key + ":flag", ok, where=w, node=asg[0] if asg else w.node, construct=norm_text(asg[0]) if asg else "", message="the branch must be selected by perform_over_sampling_from(grid=grid, ...)")
+    ctx.ob(rule, w.key + ":flag", okf, where=w, node=w.node, construct=det, message="the branch must be selected by perform_over_sampling_from(grid=grid, ...)")
     # over-sampled-grid input: func on grid.grid then binned by grid.over_sampler
     gos = [r for r in rets if isinstance(r.value, ast.Call) and isinstance(r.value.func, ast.Attribute) and r.value.func.attr == "binned_array_2d_from"]
     ok = len(gos) == 1 and norm_text(gos[0].value.func.value) == "grid.over_sampler"
@@ -264,13 +280,14 @@ def decorator(ctx, p):
     if f is None:
         raise AnchorMissing("perform_over_sampling_from")
     # decided on the paths of the function, not on how its ifs are nested: it answers True only for a Grid2D with an over-sampling that is not already being performed, and never when the uniform sub-size is 1
-    paths = wire.decision_paths(f)
-    yes = [c for c, v in paths if v is True]
+    PS = paths.path_summaries(f) or []
+    yes = [q for q in PS if q.kind == "return" and q.text == "True"]
+    no = [q for q in PS if q.kind == "return" and q.text == "False"]
     need = [("kwargs.get('over_sampling_being_performed')", False), ("isinstance(grid, Grid2D)", True), ("grid.over_sampling is not None", True)]
-    ok = bool(yes) and all(all(x in c for x in need) for c in yes) and not any(("grid.over_sampling.sub_size == 1", True) in c for c in yes) \
-        and any(("grid.over_sampling.sub_size == 1", True) in c and v is False for c, v in paths) and all(v in (True, False) for c, v in paths)
-    tests = sorted({t for c, v in paths for t, _ in c})
-    ctx.ob(rule, f.key, ok, where=f, node=f.node, construct=f"{len(paths)} paths, {len(yes)} answering True; conditions {tests}"[:300], message="over-sampling must be switched off when the uniform sub-size is 1 (plain evaluation)")
+    ok = bool(yes) and all(all(q.holds(t) is v for t, v in need) for q in yes) and not any(q.holds("grid.over_sampling.sub_size == 1") is True for q in yes) \
+        and any(q.holds("grid.over_sampling.sub_size == 1") is True for q in no) and len(yes) + len(no) == len(PS)
+    tests = sorted({t for q in PS for t, _ in q.conds})
+    ctx.ob(rule, f.key, ok, where=f, node=f.node, construct=f"{len(PS)} paths, {len(yes)} answering True; conditions {tests}"[:300], message="over-sampling must be switched off when the uniform sub-size is 1 (plain evaluation)")
 
 
 def iterate(ctx, p, K):
@@ -291,7 +308,7 @@ def iterate(ctx, p, K):
         opt = [g for g in real_guards(s.guards) if "is not Const(None)" in repr(g)]
         got = sorted(str(norm_cond(g)) for g in gs)
         unm = str(norm_cond(Cond("not", Cond("truth", E_("array_higher_mask", y, x)))))
-        frac = Poly.fn("phi", Poly.fn("phi", Hh / L, L / Hh), ZERO)
+        frac = Poly.fn("ite", Poly.fn("cmp:<", ZERO, L), Poly.fn("ite", Poly.fn("cmp:<", ONE, L / Hh), Hh / L, L / Hh), ZERO)
         want_f = sorted([unm, str(norm_cond(CMP(frac, "<", S_("fractional_accuracy_threshold"))))])
         want_r = sorted([unm, str(norm_cond(CMP(Poly.fn("abs", L - Hh), ">", S_("relative_accuracy_threshold"))))])
         want_r2 = sorted([unm, str(norm_cond(CMP(Poly.fn("abs", Hh - L), ">", S_("relative_accuracy_threshold"))))])
@@ -300,21 +317,6 @@ def iterate(ctx, p, K):
         ctx.ob(rule, f"{f.key}:{kind}", good, where=f, node=s.node, construct="; ".join(got)[:300],
                message=("ratio = lower/higher inverted when > 1, 0 unless lower > 0, flagged when < threshold, unmasked pixels only" if kind == "fractional"
                         else "|lower - higher| flagged when > tolerance, unmasked pixels only"))
-    # the conditional assignments that define the ratio
-    asg = {}
-    for (nm, v, op, g, l, n) in S.assigns:
-        if op == "=" and len(l) == 2 and isinstance(v, Poly):
-            y, x = S_(l[0].var), S_(l[1].var)
-            L, Hh = E_("array_lower_sub_2d", y, x), E_("array_higher_sub_2d", y, x)
-            gg = {str(norm_cond(c)) for c in real_guards(g)}
-            if v == L / Hh and str(norm_cond(CMP(L, ">", ZERO))) in gg and len(gg) == 3:
-                asg["ratio"] = True
-            if v == Hh / L and str(norm_cond(CMP(L / Hh, ">", ONE))) in gg and str(norm_cond(CMP(L, ">", ZERO))) in gg:
-                asg["invert"] = True
-            if v == ZERO and str(norm_cond(Cond("not", CMP(L, ">", ZERO)))) in gg:
-                asg["zero"] = True
-    ctx.ob(rule, f.key + ":ratio", set(asg) == {"ratio", "invert", "zero"}, where=f, node=f.node, construct=str(sorted(asg)),
-           message="the ratio must be lower/higher when lower > 0, replaced by its inverse when it exceeds 1, and 0 when lower <= 0")
     # iterated array: filled where the pixel has just become resolved
     g = p.func("autoarray.operators.over_sampling.iterate:iterated_array_jit_from")
     G = K.summarize(g)
